@@ -233,6 +233,32 @@ def check(ctx):
                        isinstance(eph, ast.Constant) and eph.value is True,
                        'presence nodes are created ephemeral=True')
     ctx.require(n >= 2, 'zkutils.create calls for presence nodes')
+    # registering never adopts a node that exists: after NodeExistsError the
+    # only way to report success is a later create of our own
+    for func in pres.live_functions():
+        if not any(isinstance(c, ast.Call) and
+                   K.callee_text(c) == 'zkutils.create'
+                   for c in K.walk_no_nested(func.node)):
+            continue
+        graph = ctx.cfg(func)
+        handlers = [nd for nd in graph.nodes if nd.kind == 'handler' and
+                    nd.ast is not None and nd.ast.type is not None and
+                    'NodeExists' in N.txt(nd.ast.type)]
+        creates = [nd for nd, _c in K.nodes_calling(
+            graph, lambda c: K.callee_text(c) == 'zkutils.create')]
+        for hdl in handlers:
+            goals = [nd for nd in graph.nodes if nd.kind == 'return' and
+                     nd.ast.value is not None and nd not in creates]
+            path = K.find_path(hdl, goals + [graph.exit],
+                               cut_node=lambda nd: nd in creates,
+                               follow_exc=False) if True else None
+            ctx.ob('C17.1', func, hdl, path is None,
+                   'when the node already exists the registration waits '
+                   'and creates its own node; it never returns success on '
+                   "someone else's node",
+                   path=K.describe(path) if path else None,
+                   construct='existing node is not adopted in %s' %
+                   func.name)
     # ---- C17.2 ---------------------------------------------------------
     graph = ctx.cfg(sc)
     updates = [n for n, c in K.nodes_calling(
